@@ -21,7 +21,7 @@ def hash_diff_never_uploads_over_deleted_peer(w: World):
     assume(sync[changed].path is not None)
     assume(sync[synced].exists in (TRASHED, MISSING) or sync[synced].oid is None)
     r = mgr.handle_hash_diff(sync, changed, synced)
-    check(len(provider_calls()) == 0, "no provider call is made")
+    check(len(provider_writes()) == 0, "nothing is written to a provider")
     check(r == PUNT, "the entry is punted")
     check(sync[synced].sync_path is None and sync[synced].sync_hash is None, "synced side forgets its sync markers")
     check(sync[changed].sync_path is None and sync[changed].sync_hash is None, "changed side forgets its sync markers")
@@ -115,7 +115,7 @@ def handle_corrupt_effects(w: World):
     h = sync[side].hash
     pth = sync[side].path
     r = mgr.handle_corrupt(side, sync)
-    check(len(provider_calls()) == 0, "no provider call")
+    check(len(provider_writes()) == 0, "no provider write")
     check(r == FINISHED, "finished")
     check(sync[side].exists == CORRUPT, "side is marked corrupt")
     check(sync[side].sync_hash == h and sync[side].sync_path == pth, "corrupt side counts as synced as it is")
